@@ -283,7 +283,7 @@ func streamText(c *ctx) {
 		emit("task-json-raw", fmt.Sprint(n), "task/number")
 		emit("task-json-raw", fmt.Sprintf(`"%d"`, n), "task/quoted-number")
 	}
-	for _, s := range []string{"", "00", "013", "14", "0", "99999999999999999999", "1.0", "-1", "+1", " 1"} {
+	for _, s := range []string{"", "00", "013", "14", "0", "99999999999999999999", "1.0", "-1", "+1", " 1", "256", "257", "269", "270", "513", "65537", "65549", "4294967297", "4294967307", "18446744073709551617"} {
 		emit("task-tsv", s, "task/number-edge")
 		emit("task-json-raw", s, "task/number-edge")
 	}
